@@ -3,6 +3,84 @@
 use mrverif::*;
 use serde_json::{json, Value};
 
+/// Runs `prop` as N child processes (one per core) and merges their reports: counts are summed,
+/// `*_set` extras are unioned, violations are concatenated and re-pruned by rank.
+fn sharded(exe: &str, prop: &str, tier: &str) -> Value {
+    let n = std::thread::available_parallelism().map(|x| x.get()).unwrap_or(8).min(16);
+    let children: Vec<_> = (0..n)
+        .map(|k| {
+            std::process::Command::new(exe)
+                .args([prop, "--tier", tier, "--shard", &format!("{}/{}", k, n)])
+                .stdout(std::process::Stdio::piped())
+                .spawn()
+                .expect("spawn shard")
+        })
+        .collect();
+    let mut merged: Option<Value> = None;
+    for c in children {
+        let out = c.wait_with_output().expect("shard output");
+        if !out.status.success() {
+            eprintln!("shard failed: {:?}", out.status);
+            std::process::exit(2);
+        }
+        let text = String::from_utf8_lossy(&out.stdout);
+        let v: Value = serde_json::from_str(text.trim().lines().last().unwrap_or("")).expect("shard json");
+        merged = Some(match merged {
+            None => v,
+            Some(mut m) => {
+                for k in ["evaluations", "distinct_nontrivial", "violation_count"] {
+                    m[k] = json!(m[k].as_u64().unwrap_or(0) + v[k].as_u64().unwrap_or(0));
+                }
+                for section in ["by_sig", "counters"] {
+                    if let Some(o) = v[section].as_object() {
+                        for (k, x) in o {
+                            let cur = m[section][k].as_u64().unwrap_or(0);
+                            m[section][k] = json!(cur + x.as_u64().unwrap_or(0));
+                        }
+                    }
+                }
+                if let Some(o) = v["extra"].as_object() {
+                    for (k, x) in o {
+                        if k.ends_with("_set") {
+                            let mut set: std::collections::BTreeSet<String> = serde_json::from_value(m["extra"][k].clone()).unwrap_or_default();
+                            let add: Vec<String> = serde_json::from_value(x.clone()).unwrap_or_default();
+                            set.extend(add);
+                            m["extra"][k] = json!(set);
+                        } else if k.ends_with("_total") || k.ends_with("_list") {
+                            // identical in every shard
+                        } else if let Some(a) = x.as_u64() {
+                            m["extra"][k] = json!(m["extra"][k].as_u64().unwrap_or(0) + a);
+                        }
+                    }
+                }
+                let mut vs = m["violations"].as_array().cloned().unwrap_or_default();
+                vs.extend(v["violations"].as_array().cloned().unwrap_or_default());
+                vs.sort_by_key(|x| (x["sig"].as_str().unwrap_or("").to_string(), x["rank"].as_u64().unwrap_or(0)));
+                let mut kept: Vec<Value> = vec![];
+                let mut per: std::collections::BTreeMap<String, usize> = Default::default();
+                for x in vs {
+                    let c = per.entry(x["sig"].as_str().unwrap_or("").to_string()).or_insert(0);
+                    if *c < 5 {
+                        *c += 1;
+                        kept.push(x);
+                    }
+                }
+                m["violations"] = json!(kept);
+                m
+            }
+        });
+    }
+    let mut m = merged.unwrap();
+    let sets: Vec<String> = m["extra"].as_object().map(|o| o.keys().filter(|k| k.ends_with("_set")).cloned().collect()).unwrap_or_default();
+    for k in sets {
+        let n = m["extra"][&k].as_array().map(|a| a.len()).unwrap_or(0);
+        m["extra"][format!("{}_count", k)] = json!(n);
+        m["extra"].as_object_mut().unwrap().remove(&k);
+    }
+    m["extra"]["shards"] = json!(n);
+    m
+}
+
 fn main() {
     let args: Vec<String> = std::env::args().collect();
     if args.len() < 2 {
@@ -12,6 +90,7 @@ fn main() {
     let prop = args[1].to_lowercase();
     let mut tier = std::env::var("VERIF_TIER").unwrap_or_else(|_| "quick".into());
     let mut replay: Option<String> = None;
+    let mut shard: Option<(usize, usize)> = None;
     let mut i = 2;
     while i < args.len() {
         match args[i].as_str() {
@@ -21,6 +100,11 @@ fn main() {
             }
             "--replay" => {
                 replay = Some(args[i + 1].clone());
+                i += 2;
+            }
+            "--shard" => {
+                let (a, b) = args[i + 1].split_once('/').expect("--shard k/n");
+                shard = Some((a.parse().unwrap(), b.parse().unwrap()));
                 i += 2;
             }
             _ => i += 1,
@@ -55,7 +139,14 @@ fn main() {
             "c03" => c03::run(c03::Prop::C03, &tier, &root),
             "c09" => c03::run(c03::Prop::C09, &tier, &root),
             "c01" => c01::run(&tier, &root),
-            "c08" => c08::run(&tier, &root),
+            "c08" => match shard {
+                Some((k, n)) => {
+                    // one shard: sequential inside this process (threads contend on mmap)
+                    rayon::ThreadPoolBuilder::new().num_threads(1).build_global().ok();
+                    c08::run(&tier, &root, k, n)
+                }
+                None => sharded(&args[0], "c08", &tier),
+            },
             "c17" => c17::run("c17", &tier, &root),
             "c18" => c17::run("c18", &tier, &root),
             _ => {
